@@ -77,6 +77,25 @@ CLAIMED = {
                      "thresholds on both sides of n x operator scale and states the relation each result must satisfy (L L^T, R^T R, R R^T, "
                      "R R^T A = I, Q^T Q = I and Q diag(w) Q^T = A, U S V^T); Lanczos-type results must equal the orthogonal compression of A "
                      "onto their own span; truncated pivoted Cholesky must under-approximate."),
+    "C08": dict(engine="E4-loop-models-trace-validation", design="5/C08",
+                technique="TLA+ state machine of the CG loop control (LOCG) model-checked exhaustively by TLC; executions recorded from linear_cg (budget re-runs) validated by TLC against the property clauses of LOCG (Trace_C08)",
+                text="(1) spec/LOCG.tla models the control of linear_cg (limits, mandatory iterations, tridiagonal budget, tolerance exit, warning, raise) over abstract "
+                     "per-iteration observations; spec/MC_C08.tla lets TLC choose every configuration and observation sequence and checks the control invariants; three "
+                     "slipped variants must be rejected. (2) For seeded scenarios (spectrum family x condition number up to 1e6 x size 1..64 x batch x zero / tiny / huge "
+                     "columns x initial guess x preconditioner x tolerance x limits x tridiagonal requests x dtype x eps) the real linear_cg is executed with every iteration "
+                     "budget 1..K, rescaled right-hand sides and tight limits; the recorded traces (lg-encoded A-norm errors, residuals, change flags, warnings, tridiagonal "
+                     "facts) are validated by TLC (spec/Trace_C08.tla): error never increases, classical bound with the exact condition number, no warning implies residual "
+                     "below tolerance, frozen and zero columns, linear scaling, preconditioner-independent limit, T symmetric tridiagonal with Ritz values in the spectrum, "
+                     "Gauss quadrature identity at full dimension, agreement with independently computed Lanczos coefficients, raise on NaN / inconsistent limits. Sampled "
+                     "in inputs (seeded drivers), exhaustive in the control model."),
+    "C10": dict(engine="E4-loop-models-trace-validation", design="5/C10",
+                technique="TLA+ state machine of pivoted Cholesky in exact rational arithmetic (LOPivChol) explored exhaustively by TLC incl. all tie-breaking; library results accepted only as one of the specification's behaviours; preconditioner compared with (A - S) + D",
+                text="spec/LOPivChol.tla runs the loop of functions/_pivoted_cholesky.py on exact rationals (state: residual S = A - L L^T per batch member, pivots, step counter, "
+                     "lockstep exit rule); TLC checks in every state that S is PSD, vanishes on pivot rows / columns, pivots are greedy, the trace never increases, the "
+                     "factorization is exact at full rank and the loop leaves early only below the relative tolerance; three slipped variants must be rejected. spec/MC_C10.tla "
+                     "enumerates 18 instance families x rank bound 1..n+1 x tolerances (default, loose, tight and placed strictly between consecutive residual traces) x scale x "
+                     "diagonal part; every terminal state (pivots, steps, exact A - S) is printed and the library's (L, permutation) must be one of them in float32 / float64; "
+                     "for K + D the preconditioner's closure, operator and log-determinant must be those of (A - S) + D, and None below min_preconditioning_size."),
     "C12": dict(
         engine="E3-history-machines",
         technique="TLA+ model of per-object memoize caches over query/derivation/settings histories (key discipline from the live classes), exhaustive TLC histories replayed with per-step cache-validity checks",
@@ -195,6 +214,9 @@ def main():
             dict(name="E3-history-machines", path="spec/LOSettings.tla spec/LOCache.tla spec/LOPsdChol.tla harness/checks/",
                  serves_properties=sorted(k for k, v in CLAIMED.items() if v["engine"] == "E3-history-machines"),
                  kind_free_text="TLA+ state machines over event histories (ideal + implementation-shaped layers), exhaustive TLC exploration, histories replayed into / traces validated from the library"),
+            dict(name="E4-loop-models-trace-validation", path="spec/LOCG.tla spec/MC_C08.tla spec/Trace_C08.tla spec/LOPivChol.tla spec/MC_C10.tla harness/checks/",
+                 serves_properties=sorted(k for k, v in CLAIMED.items() if v["engine"] == "E4-loop-models-trace-validation"),
+                 kind_free_text="TLA+ state machines of the iterative solvers; exhaustive TLC exploration of the models; traces recorded from the real solvers validated by TLC / results accepted only as model behaviours"),
             dict(name="E2-exact-linalg-replay", path="spec/LORational.tla spec/MC_E2.tla harness/e2.py",
                  serves_properties=sorted(k for k, v in CLAIMED.items() if v["engine"] == "E2-exact-linalg-replay"),
                  kind_free_text="exact rational linear algebra in TLA+ as oracle for solve / logdet / quadratic forms across configurations"),
